@@ -22,7 +22,12 @@ use crate::{
 };
 
 const KEYWORDS: &[&str] = &["command_list_begin", "command_list_ok_begin", "command_list_end"];
-const NAME_SIGMA: &[&str] = &["a", "Z", "_", "0", " ", "\t", "\n", "\r", "\0", "\"", "'", "\\", "\u{e9}", "-"];
+const NAME_SIGMA: &[&str] = &[
+    "a", "Z", "_", "0", " ", "\t", "\n", "\r", "\0", "\"", "'", "\\", "\u{e9}", "-",
+    // non-ASCII characters of Unicode classes a predicate might let through: decimal digit, other
+    // number (superscript, fraction, Roman numeral, fullwidth digit), letter-like, spaces
+    "\u{663}", "\u{b2}", "\u{bd}", "\u{2167}", "\u{ff11}", "\u{aa}", "\u{a0}", "\u{2028}",
+];
 
 /// user-defined renderer: appends exactly these bytes
 #[derive(Clone, Debug)]
@@ -359,7 +364,7 @@ pub fn run(tier: Tier) -> i32 {
     ctx.assume("user-defined Argument renderers only append bytes to the buffer they are handed");
 
     // names
-    let mut names = strings_over(NAME_SIGMA, tier.pick(4, 5));
+    let mut names = strings_over(NAME_SIGMA, tier.pick(3, 4));
     names.extend(keyword_neighbours());
     let acc_names = names
         .par_chunks(1024)
@@ -443,8 +448,8 @@ pub fn run(tier: Tier) -> i32 {
     cov.evaluations = acc.evaluations;
     cov.distinct_nontrivial = acc.nontrivial;
     cov.rule = format!(
-        "names: every string of length <= {} over 14 class representatives plus every string within edit distance 1 of / prefix / extension of the three list keywords ({} names); arguments: every string of length <= {} over 12 classes through &str/String/Cow, integer/bool/Duration values, user-defined renderers for every byte string of length <= {} over {{a, LF, CR, 0xFF, space, quote}} ({} values x 2 base commands); sequences: every sequence of <= {} add_argument calls over a menu of 4 accepted and 4 rejected values ({} sequences); non-trivial = invalid names, values containing LF or rendered by a user-defined renderer, sequences containing a rejected call",
-        tier.pick(4, 5),
+        "names: every string of length <= {} over 22 class representatives (incl. 8 non-ASCII numeric / letter-like / space characters) plus every string within edit distance 1 of / prefix / extension of the three list keywords ({} names); arguments: every string of length <= {} over 12 classes through &str/String/Cow, integer/bool/Duration values, user-defined renderers for every byte string of length <= {} over {{a, LF, CR, 0xFF, space, quote}} ({} values x 2 base commands); sequences: every sequence of <= {} add_argument calls over a menu of 4 accepted and 4 rejected values ({} sequences); non-trivial = invalid names, values containing LF or rendered by a user-defined renderer, sequences containing a rejected call",
+        tier.pick(3, 4),
         names.len(),
         tier.pick(4, 5),
         tier.pick(4, 6),
